@@ -123,7 +123,8 @@ class Engine:
 
     def has_quant(self, e, _cache={}):
         k = e.get_id()
-        r = _cache.get(k)
+        ent = _cache.get(k)        # (term, answer): holding the term keeps its id from being recycled for another one
+        r = ent[1] if ent is not None else None
         if r is None:
             r = False
             todo = [e]
@@ -137,7 +138,7 @@ class Engine:
                     r = True
                     break
                 todo.extend(x.children())
-            _cache[k] = r
+            _cache[k] = (e, r)
         return r
 
     def feasible(self, st, extra=None):
